@@ -142,15 +142,20 @@ func (c *vfClient) reader() {
 		}
 		f := vfParseFrame(raw)
 		f.T = c.env.now()
+		// the frame is on disk before anybody can act on it (a crash right after must not lose the observation)
+		if c.env.logf != nil {
+			if f.Kind == "?" {
+				c.env.vfLog("recv", map[string]any{"c": c.name, "raw": string(raw)})
+			} else {
+				c.env.vfLog("recv", map[string]any{"c": c.name, "f": json.RawMessage(raw)})
+			}
+		}
 		c.mu.Lock()
 		f.N = len(c.frames)
 		c.frames = append(c.frames, f)
 		c.cond.Broadcast()
 		c.mu.Unlock()
 		atomic.AddInt64(&c.env.framesIn, 1)
-		if c.env.logf != nil {
-			c.env.vfLog("recv", map[string]any{"c": c.name, "f": json.RawMessage(raw)})
-		}
 	}
 }
 
